@@ -80,6 +80,11 @@ def render_body(segs) -> str:
 
 def install(ctx, lib: dict) -> None:
     for name, segs in lib.items():
+        if name == "RDR":
+            # marker of Transclusion.tla: the redirect pages exist
+            ctx.add_page("Template:R1", 10, redirect_to="Template:T1")
+            ctx.add_page("Template:R2", 10, redirect_to="Template:R1")
+            continue
         ctx.add_page("Template:" + name, 10, body=render_body(segs))
 
 
